@@ -336,10 +336,10 @@ func C16(e *core.Env) {
 	nm := 0
 	for i, p := range sentences {
 		s := p.Render(canon, none)
-		if len(s) > 30 && e.Rand.Intn(e.Pick(40, 6)) != 0 {
+		if len(s) > 30 && e.Rand.Intn(e.Pick(40, 12)) != 0 {
 			continue
 		}
-		if i%e.Pick(6, 1) != 0 && len(s) > 12 {
+		if i%e.Pick(6, 2) != 0 && len(s) > 12 {
 			continue
 		}
 		for _, m := range mutants(s) {
